@@ -152,6 +152,7 @@ def scn_simple():
     c = xr.DataArray(((np.arange(2 * ny * nx) * 7) % 11).astype(float).reshape(2, ny, nx), dims=["t", "yc", "xc"], name="foo",
                      attrs={"long_name": "Foo"})
     ns["c"] = c.assign_coords(xc=ds.xc, yc=ds.yc, depth=ds.depth)
+    ns["cneg"] = (-ns["c"] * 3 + 1).rename("neg")
     ns["u"] = xr.DataArray(np.arange(ny * nx).reshape(ny, nx) * 1.0 + 1, dims=["yc", "xl"], name="u")
     ns["v"] = xr.DataArray(-np.arange(ny * nx).reshape(ny, nx) * 2.0 - 1, dims=["yl", "xc"], name="v")
     ns["vec"] = {"X": ns["u"]}
@@ -170,6 +171,7 @@ def scn_simple():
     ops["diff_x"] = lambda n: n["g"].diff(n["c"], "X", to="left")
     ops["interp_xy_maps"] = lambda n: n["g"].interp(n["c"], n["axl"], to=n["tomap"], boundary=n["bmap"], fill_value=n["fmap"])
     ops["min_y_bmap"] = lambda n: n["g"].min(n["c"], "Y", boundary=n["bmap"])
+    ops["min_y_neg"] = lambda n: n["g"].min(n["cneg"], "Y", boundary=n["bmap"])
     ops["max_x_outer"] = lambda n: n["g"].max(n["c"], "X", to="outer", boundary="fill", fill_value=n["fmap"])
     ops["cumsum_x_maps"] = lambda n: n["g"].cumsum(n["c"], "X", to=n["tomap"], boundary=n["bmap"], fill_value=n["fmap"])
     ops["cumsum_yx"] = lambda n: n["g"].cumsum(n["c"], ["Y", "X"], boundary="fill")
@@ -369,21 +371,37 @@ def run_seq(rec, scn, seq):
     s0 = snapshot(ns)
     rec.state(("S", scn, tuple(sorted(s0.items()))))
     rec.case((scn, tuple(seq)), len(seq) >= 2, sample=case, calls=len(seq))
+    kept = []
     for i, name in enumerate(seq):
         res = run_op(ns, ops[name])
         rec.transitions += 1
         s1 = snapshot(ns)
         if s1 != s0:
-            rec.state(("S", scn, tuple(sorted(s1.items()))))
             changed = sorted(k for k in s0 if s0[k] != s1.get(k))
-            rec.violation("immutability", f"{scn}:{name}:mutates:{'+'.join(changed)}", dict(case, at=i), "arguments unchanged",
-                          "changed: " + ", ".join(changed), cost=i)
-            return
+            if changed == ["<module globals>"]:
+                # a change of module-level state alone is not a violation of the property (it may be
+                # a legitimate cache); it is counted, and its consequences are caught by clause (ii)
+                rec.counters["module_state_changes"] += 1
+                s0 = dict(s0, **{"<module globals>": s1["<module globals>"]})
+                rec.state(("S", scn, tuple(sorted(s1.items()))))
+            else:
+                rec.state(("S", scn, tuple(sorted(s1.items()))))
+                changed = [k for k in changed if k != "<module globals>"]
+                rec.violation("immutability", f"{scn}:{name}:mutates:{'+'.join(changed)}", dict(case, at=i), "arguments unchanged",
+                              "changed: " + ", ".join(changed), cost=i)
+                return
         c = canon_result(res)
         if c != first[name]:
             what = "raises" if c[0] == "raise" else ("returns-instead-of-raising" if first[name][0] == "raise" else "different-result")
             rec.violation("history", f"{scn}:{name}:{what}-after:{'+'.join(seq[:i])}", dict(case, at=i),
                           _short(first[name]), _short(c) if not isinstance(res, Exception) else f"{type(res).__name__}: {res}"[:200], cost=i)
+            return
+        kept.append((name, res, c))
+    # results handed out earlier must not be changed by later calls (shared buffers)
+    for j, (name, res, c) in enumerate(kept[:-1]):
+        if canon_result(res) != c:
+            rec.violation("history", f"{scn}:{name}:earlier-result-changed-by-later-call:{'+'.join(seq[j + 1:])}", dict(case, at=j),
+                          _short(c), _short(canon_result(res)), cost=len(seq))
             return
     rec.traces += 1
 
